@@ -19,11 +19,14 @@ use super::*;
 pub use shim::*;
 pub mod math {
 use super::*;
+#[allow(unused_imports)] use super::shim::Decimal;
 //%include math.rs
+//%include math_decimal_conv.rs
 }
 pub use math::*;
 pub mod mlem {
 use super::*;
+#[allow(unused_imports)] use super::shim::Decimal;
 //%include mlem_math.rs
 //%include mlem_swap.rs
 //%include mlem_rev.rs
@@ -31,14 +34,31 @@ use super::*;
 pub use mlem::*;
 pub mod formulas {
 use super::*;
+#[allow(unused_imports)] use super::shim::Decimal;
 //%include formulas_swap.rs
 //%include formulas_misc.rs
 }
 pub use formulas::*;
 pub mod asset {
 use super::*;
+#[allow(unused_imports)] use super::shim::Decimal;
+//%include haloswap_error.rs
 //%include haloswap_asset.rs
 }
 pub use asset::*;
+pub mod formulas_lp {
+use super::*;
+#[allow(unused_imports)] use super::shim::Decimal;
+//%include formulas_lp.rs
+}
+pub use formulas_lp::*;
+pub mod pair {
+use super::*;
+#[allow(unused_imports)] use super::shim::Decimal;
+//%include haloswap_pairmsg.rs
+//%include pair_state.rs
+//%include pair_assert.rs
+//%include pair_contract.rs
+}
 } // verus!
 fn main() {}
